@@ -27,6 +27,7 @@ type Profile struct {
 	MaxWrite  uint64
 	BigOffset bool // offsets at indirection boundaries
 	Reclaim   bool // second phase deletes everything
+	Fill      bool // early phase fills the disk
 	Steer     map[string]bool
 }
 
@@ -42,6 +43,11 @@ type Gen struct {
 	nmax         uint64
 	pend         *pending
 	deleting     bool
+	filling      int // >0: fill phase, current step in blocks
+	filler       *gobj
+	fillDone     bool
+	fillCreate   int
+	fillWrite    int
 	unstableFile *gobj // a file with acknowledged unstable data not yet committed
 }
 
@@ -202,8 +208,31 @@ func (g *Gen) nextDelete() (Op, bool) {
 	return Op{}, false
 }
 
+// nextFill drives the disk to (almost) full: append to a filler file with halving steps until
+// nothing fits, then give back one to three blocks, so that later requests fail part-way.
+func (g *Gen) nextFill() (Op, bool) {
+	if g.filler == nil || g.filler.dead {
+		name := fmt.Sprintf("filler%d", g.rng.Intn(1000))
+		o := Op{Id: g.id(), Proc: "create", H: "root", Name: name}
+		g.pend = &pending{parent: g.root, op: o}
+		g.fillCreate = o.Id
+		return o, true
+	}
+	n := uint64(g.filling) * 4096
+	o := Op{Id: g.id(), Proc: "write", H: g.filler.sym, Off: (g.filler.size + 4095) / 4096 * 4096, Cnt: n, Stable: 2,
+		Data: DataSpec{Pat: true, Len: n, Seed: uint64(g.rng.Intn(250))}}
+	g.pend = &pending{target: g.filler, op: o}
+	g.fillWrite = o.Id
+	return o, true
+}
+
 // Next produces the next operation.
 func (g *Gen) Next() Op {
+	if g.filling > 0 {
+		if o, ok := g.nextFill(); ok {
+			return o
+		}
+	}
 	if g.deleting {
 		if o, ok := g.nextDelete(); ok {
 			return o
@@ -253,6 +282,23 @@ func (g *Gen) try(k string) (Op, bool) {
 		}
 		n := g.length()
 		o = Op{Proc: "write", H: f.sym, Off: g.offset(f), Cnt: n, Stable: uint32(g.rng.Intn(3)),
+			Data: DataSpec{Pat: true, Len: n, Seed: uint64(g.rng.Intn(250))}}
+		g.pend = &pending{target: f}
+	case "giveback":
+		if g.filler == nil || g.filler.dead || !g.fillDone || g.filler.size < 4*4096 {
+			return o, false
+		}
+		k := uint64(1 + g.rng.Intn(3))
+		o = Op{Proc: "setattr", H: g.filler.sym, HasSize: true, Size: (g.filler.size/4096 - k) * 4096}
+		g.pend = &pending{target: g.filler}
+	case "indwrite": // a small write in the indirect / double-indirect range of a small file
+		f := g.pick(1)
+		if f == nil || f == g.filler {
+			return o, false
+		}
+		offs := []uint64{8, 9, 100, 519, 520, 521, 1032, 1033}
+		n := uint64(1 + g.rng.Intn(5000))
+		o = Op{Proc: "write", H: f.sym, Off: offs[g.rng.Intn(len(offs))]*4096 + uint64(g.rng.Intn(2))*100, Cnt: n, Stable: 2,
 			Data: DataSpec{Pat: true, Len: n, Seed: uint64(g.rng.Intn(250))}}
 		g.pend = &pending{target: f}
 	case "bigwrite":
@@ -493,6 +539,14 @@ func (g *Gen) kill(t *gobj) {
 
 // Observe updates the picture from the reply.
 func (g *Gen) Observe(o Op, r Reply) {
+	if g.filling > 0 && o.Id == g.fillWrite {
+		if r.Code != 0 || r.Cnt < o.Cnt {
+			g.filling /= 2
+			if g.filling == 0 && g.filler != nil && !g.fillDone {
+				g.fillDone = true
+			}
+		}
+	}
 	p := g.pend
 	g.pend = nil
 	if r.Code != 0 || p == nil || p.op.Id != o.Id {
@@ -510,7 +564,19 @@ func (g *Gen) Observe(o Op, r Reply) {
 		}
 		p.parent.kids[o.Name] = n
 		g.live = append(g.live, n)
+		if o.Id == g.fillCreate {
+			g.filler = n
+		}
 	case "write":
+		if r.Kind == "written" && r.Committed == 0 && r.Cnt > 0 {
+			g.unstableFile = p.target
+		}
+		if r.Kind == "written" && r.Cnt < o.Cnt {
+			if r.Cnt > 0 && o.Off+r.Cnt > p.target.size {
+				p.target.size = o.Off + r.Cnt
+			}
+			return
+		}
 		if o.Off+o.Cnt > p.target.size && o.Cnt > 0 {
 			p.target.size = o.Off + o.Cnt
 		}
